@@ -294,6 +294,8 @@ pub fn run(opts: &Opts, out: &mut Emitter) {
         json!("0x00000000000000000000000000000001"), json!("0x000000000000000000000000000001"), json!("0xffffffffffffffffffffffffffffffff"),
         json!(18446744073709551615u64), json!(-9223372036854775808i64), json!(1.0), json!(2), json!("TRUE"), json!("1"),
         json!(3), json!(7), json!(255), json!(256), json!(-1), json!(4294967296u64), json!("0"), json!("yes"), json!("True"), json!(0.0),
+        json!("ab#4294967295"), json!("ab#4294967297"), json!("ab#4294967299"), json!("ab#30064771072"), json!("ab#18446744073709551615"),
+        json!("ab#18446744073709551616"), json!("ab# 1"), json!("ab#1 "), json!("ab#0x1"),
         json!({"content": "ff", "contentType": "hex", "payload": "aa"}), json!({"content": "ff"}), json!({"contentType": "hex"}),
         json!({"content": "ff", "contentType": "HEX"}), json!({"content": 5, "contentType": "hex"}), json!({"content": "/w==", "contentType": "base64"}),
         json!({"content": "!!", "contentType": "base64"}), json!(null), json!([1, 2]),
